@@ -392,6 +392,21 @@ class DictTransactionManager(ModbusTransactionManager):
         """
         return iterkeys(self.transactions)
 
+    def getNextTID(self):
+        ''' Retrieve the next unique transaction identifier
+
+        Identifiers of transactions that are still outstanding are skipped,
+        so that a pending transaction is never overwritten when the 16 bit
+        counter wraps around.
+
+        :returns: The next unique transaction identifier
+        '''
+        for _ in range(0x10000):
+            tid = super(DictTransactionManager, self).getNextTID()
+            if tid not in self.transactions:
+                break
+        return tid
+
     def addTransaction(self, request, tid=None):
         """ Adds a transaction to the handler
 
